@@ -1002,35 +1002,29 @@ class RewriteAtQuery(NodeTransformer):
         ):
             if isinstance(self.replacement_node, (AnnAssign, Assign)):
                 # Set default
-                if isinstance(self.replacement_node, AnnAssign):
-                    idx = next(
-                        (
-                            _arg._idx
-                            for _arg in node.args.args
-                            if _arg.arg == self.replacement_node.target.id
-                            and hasattr(_arg, "_idx")
-                        ),
-                        None,
-                    )
-                else:
-                    idx = next(
-                        filter(
-                            None,
-                            (
-                                _arg._idx if _arg.arg == target.id else None
-                                for target in self.replacement_node.targets
-                                for _arg in node.args.args
-                                if hasattr(_arg, "_idx")
-                            ),
-                        ),
-                        None,
-                    )
+                names = frozenset(
+                    (self.replacement_node.target.id,)
+                    if isinstance(self.replacement_node, AnnAssign)
+                    else (target.id for target in self.replacement_node.targets)
+                )
+                idx = next(
+                    (
+                        idx
+                        for idx, _arg in enumerate(node.args.args)
+                        if _arg.arg in names
+                    ),
+                    None,
+                )
+                if idx is not None:
+                    # `defaults` holds the defaults of the last `len(defaults)` arguments only
+                    idx -= len(node.args.args) - len(node.args.defaults)
+                if isinstance(self.replacement_node, Assign):
                     self.replacement_node = set_arg(
                         arg=self.replacement_node.targets[0].id,
                         annotation=self.replacement_node.value,
                     )
 
-                if idx is not None and len(node.args.defaults) > idx:
+                if idx is not None and idx > -1:
                     new_default = get_value(self.replacement_node)
                     if new_default is not None:
                         node.args.defaults[idx] = new_default
